@@ -856,7 +856,7 @@ pub fn start_case_watchdog(rep: Arc<Report>, family: String, replay_base: Value)
                 );
                 rep.finish();
                 std::process::exit(0);
-            } else if age_ms > 300_000 {
+            } else if age_ms > if cfg!(miri) { 3_000_000 } else { 300_000 } {
                 rep.inconclusive(&format!("case {} ({}) still running after {} s with the process tree busy", case, what, age_ms / 1000));
                 rep.finish();
                 std::process::exit(0);
